@@ -111,7 +111,7 @@ pub fn parse_header(s: &str) -> Option<Header> {
             height: n(2)?,
             depth: d(3)?,
             mipmap_count: NonZeroU32::new(n(4)?)?,
-            dxgi_format: DxgiFormat::try_from(n(5)?).ok()?,
+            dxgi_format: dxgi_by_code(n(5)?)?,
             resource_dimension: ResourceDimension::try_from(n(6)?).ok()?,
             misc_flag: MiscFlags::from_bits_retain(n(7)?),
             array_size: n(8)?,
@@ -545,7 +545,7 @@ fn run_ks(t: &[&str]) -> Option<(String, Vec<String>)> {
             })
         }
         "10" if st.len() == 2 => {
-            let f = DxgiFormat::try_from(p_u32(st[1])?).ok()?;
+            let f = dxgi_by_code(p_u32(st[1])?)?;
             Header::Dx10(match ctor {
                 "I" => Dx10Header::new_image(w, h, f),
                 "V" => Dx10Header::new_volume(w, h, d, f),
@@ -580,7 +580,7 @@ fn run_ks(t: &[&str]) -> Option<(String, Vec<String>)> {
             (Header::Dx10(x), "S") if p.len() == 3 => Header::Dx10(x.with_size(Size::new(n(1)?, n(2)?))),
             (Header::Dx10(x), "D") if p.len() == 4 => Header::Dx10(x.with_dimensions(n(1)?, n(2)?, od(3)?)),
             (Header::Dx10(x), "M") if p.len() == 2 => Header::Dx10(x.with_mipmap_count(NonZeroU32::new(n(1)?)?)),
-            (Header::Dx10(x), "G") if p.len() == 2 => Header::Dx10(x.with_dxgi_format(DxgiFormat::try_from(n(1)?).ok()?)),
+            (Header::Dx10(x), "G") if p.len() == 2 => Header::Dx10(x.with_dxgi_format(dxgi_by_code(n(1)?)?)),
             (Header::Dx10(x), "R") if p.len() == 2 => {
                 Header::Dx10(x.with_resource_dimension(ResourceDimension::try_from(n(1)?).ok()?))
             }
@@ -673,7 +673,22 @@ fn run_td(t: &[&str]) -> Option<(String, Vec<String>)> {
             )
         }
     };
-    Some((out, vec![]))
+    // "forall DxgiFormat (all 162 valid codes)": a header built from a named public constant must be readable again,
+    // which needs `try_from` (used by `from_raw`) to accept the constant's code, and `u32::from` to give it back
+    let mut oracle = vec![];
+    if let Some((_, d)) = DXGI_CONSTS.iter().find(|(c, _)| *c == code) {
+        if u32::from(*d) != code {
+            oracle.push(format!("the named DxgiFormat constant of code {code} converts to {}", u32::from(*d)));
+        }
+        if DxgiFormat::try_from(code).is_err() {
+            oracle.push(format!(
+                "DxgiFormat::try_from rejects code {code}, which is a named public constant: a header built with it is written but cannot be read back"
+            ));
+        }
+        let h = Header::Dx10(Dx10Header::new_image(4, 4, *d));
+        let _ = roundtrip(&h, &mut oracle);
+    }
+    Some((out, oracle))
 }
 
 fn run_tf(t: &[&str]) -> Option<(String, Vec<String>)> {
@@ -764,8 +779,179 @@ pub fn small_dim(rng: &mut Rng) -> u32 {
     }
 }
 
+/// the named public constants of `DxgiFormat` (the 162 valid codes of the DDS specification), independent of
+/// `DxgiFormat::try_from`: a code that is rejected although it has a constant is a failing input, not a bad case
+pub const DXGI_CONSTS: &[(u32, DxgiFormat)] = &[
+    (0, DxgiFormat::UNKNOWN),
+    (1, DxgiFormat::R32G32B32A32_TYPELESS),
+    (2, DxgiFormat::R32G32B32A32_FLOAT),
+    (3, DxgiFormat::R32G32B32A32_UINT),
+    (4, DxgiFormat::R32G32B32A32_SINT),
+    (5, DxgiFormat::R32G32B32_TYPELESS),
+    (6, DxgiFormat::R32G32B32_FLOAT),
+    (7, DxgiFormat::R32G32B32_UINT),
+    (8, DxgiFormat::R32G32B32_SINT),
+    (9, DxgiFormat::R16G16B16A16_TYPELESS),
+    (10, DxgiFormat::R16G16B16A16_FLOAT),
+    (11, DxgiFormat::R16G16B16A16_UNORM),
+    (12, DxgiFormat::R16G16B16A16_UINT),
+    (13, DxgiFormat::R16G16B16A16_SNORM),
+    (14, DxgiFormat::R16G16B16A16_SINT),
+    (15, DxgiFormat::R32G32_TYPELESS),
+    (16, DxgiFormat::R32G32_FLOAT),
+    (17, DxgiFormat::R32G32_UINT),
+    (18, DxgiFormat::R32G32_SINT),
+    (19, DxgiFormat::R32G8X24_TYPELESS),
+    (20, DxgiFormat::D32_FLOAT_S8X24_UINT),
+    (21, DxgiFormat::R32_FLOAT_X8X24_TYPELESS),
+    (22, DxgiFormat::X32_TYPELESS_G8X24_UINT),
+    (23, DxgiFormat::R10G10B10A2_TYPELESS),
+    (24, DxgiFormat::R10G10B10A2_UNORM),
+    (25, DxgiFormat::R10G10B10A2_UINT),
+    (26, DxgiFormat::R11G11B10_FLOAT),
+    (27, DxgiFormat::R8G8B8A8_TYPELESS),
+    (28, DxgiFormat::R8G8B8A8_UNORM),
+    (29, DxgiFormat::R8G8B8A8_UNORM_SRGB),
+    (30, DxgiFormat::R8G8B8A8_UINT),
+    (31, DxgiFormat::R8G8B8A8_SNORM),
+    (32, DxgiFormat::R8G8B8A8_SINT),
+    (33, DxgiFormat::R16G16_TYPELESS),
+    (34, DxgiFormat::R16G16_FLOAT),
+    (35, DxgiFormat::R16G16_UNORM),
+    (36, DxgiFormat::R16G16_UINT),
+    (37, DxgiFormat::R16G16_SNORM),
+    (38, DxgiFormat::R16G16_SINT),
+    (39, DxgiFormat::R32_TYPELESS),
+    (40, DxgiFormat::D32_FLOAT),
+    (41, DxgiFormat::R32_FLOAT),
+    (42, DxgiFormat::R32_UINT),
+    (43, DxgiFormat::R32_SINT),
+    (44, DxgiFormat::R24G8_TYPELESS),
+    (45, DxgiFormat::D24_UNORM_S8_UINT),
+    (46, DxgiFormat::R24_UNORM_X8_TYPELESS),
+    (47, DxgiFormat::X24_TYPELESS_G8_UINT),
+    (48, DxgiFormat::R8G8_TYPELESS),
+    (49, DxgiFormat::R8G8_UNORM),
+    (50, DxgiFormat::R8G8_UINT),
+    (51, DxgiFormat::R8G8_SNORM),
+    (52, DxgiFormat::R8G8_SINT),
+    (53, DxgiFormat::R16_TYPELESS),
+    (54, DxgiFormat::R16_FLOAT),
+    (55, DxgiFormat::D16_UNORM),
+    (56, DxgiFormat::R16_UNORM),
+    (57, DxgiFormat::R16_UINT),
+    (58, DxgiFormat::R16_SNORM),
+    (59, DxgiFormat::R16_SINT),
+    (60, DxgiFormat::R8_TYPELESS),
+    (61, DxgiFormat::R8_UNORM),
+    (62, DxgiFormat::R8_UINT),
+    (63, DxgiFormat::R8_SNORM),
+    (64, DxgiFormat::R8_SINT),
+    (65, DxgiFormat::A8_UNORM),
+    (66, DxgiFormat::R1_UNORM),
+    (67, DxgiFormat::R9G9B9E5_SHAREDEXP),
+    (68, DxgiFormat::R8G8_B8G8_UNORM),
+    (69, DxgiFormat::G8R8_G8B8_UNORM),
+    (70, DxgiFormat::BC1_TYPELESS),
+    (71, DxgiFormat::BC1_UNORM),
+    (72, DxgiFormat::BC1_UNORM_SRGB),
+    (73, DxgiFormat::BC2_TYPELESS),
+    (74, DxgiFormat::BC2_UNORM),
+    (75, DxgiFormat::BC2_UNORM_SRGB),
+    (76, DxgiFormat::BC3_TYPELESS),
+    (77, DxgiFormat::BC3_UNORM),
+    (78, DxgiFormat::BC3_UNORM_SRGB),
+    (79, DxgiFormat::BC4_TYPELESS),
+    (80, DxgiFormat::BC4_UNORM),
+    (81, DxgiFormat::BC4_SNORM),
+    (82, DxgiFormat::BC5_TYPELESS),
+    (83, DxgiFormat::BC5_UNORM),
+    (84, DxgiFormat::BC5_SNORM),
+    (85, DxgiFormat::B5G6R5_UNORM),
+    (86, DxgiFormat::B5G5R5A1_UNORM),
+    (87, DxgiFormat::B8G8R8A8_UNORM),
+    (88, DxgiFormat::B8G8R8X8_UNORM),
+    (89, DxgiFormat::R10G10B10_XR_BIAS_A2_UNORM),
+    (90, DxgiFormat::B8G8R8A8_TYPELESS),
+    (91, DxgiFormat::B8G8R8A8_UNORM_SRGB),
+    (92, DxgiFormat::B8G8R8X8_TYPELESS),
+    (93, DxgiFormat::B8G8R8X8_UNORM_SRGB),
+    (94, DxgiFormat::BC6H_TYPELESS),
+    (95, DxgiFormat::BC6H_UF16),
+    (96, DxgiFormat::BC6H_SF16),
+    (97, DxgiFormat::BC7_TYPELESS),
+    (98, DxgiFormat::BC7_UNORM),
+    (99, DxgiFormat::BC7_UNORM_SRGB),
+    (100, DxgiFormat::AYUV),
+    (101, DxgiFormat::Y410),
+    (102, DxgiFormat::Y416),
+    (103, DxgiFormat::NV12),
+    (104, DxgiFormat::P010),
+    (105, DxgiFormat::P016),
+    (106, DxgiFormat::OPAQUE_420),
+    (107, DxgiFormat::YUY2),
+    (108, DxgiFormat::Y210),
+    (109, DxgiFormat::Y216),
+    (110, DxgiFormat::NV11),
+    (111, DxgiFormat::AI44),
+    (112, DxgiFormat::IA44),
+    (113, DxgiFormat::P8),
+    (114, DxgiFormat::A8P8),
+    (115, DxgiFormat::B4G4R4A4_UNORM),
+    (130, DxgiFormat::P208),
+    (131, DxgiFormat::V208),
+    (132, DxgiFormat::V408),
+    (133, DxgiFormat::ASTC_4X4_TYPELESS),
+    (134, DxgiFormat::ASTC_4X4_UNORM),
+    (135, DxgiFormat::ASTC_4X4_UNORM_SRGB),
+    (137, DxgiFormat::ASTC_5X4_TYPELESS),
+    (138, DxgiFormat::ASTC_5X4_UNORM),
+    (139, DxgiFormat::ASTC_5X4_UNORM_SRGB),
+    (141, DxgiFormat::ASTC_5X5_TYPELESS),
+    (142, DxgiFormat::ASTC_5X5_UNORM),
+    (143, DxgiFormat::ASTC_5X5_UNORM_SRGB),
+    (145, DxgiFormat::ASTC_6X5_TYPELESS),
+    (146, DxgiFormat::ASTC_6X5_UNORM),
+    (147, DxgiFormat::ASTC_6X5_UNORM_SRGB),
+    (149, DxgiFormat::ASTC_6X6_TYPELESS),
+    (150, DxgiFormat::ASTC_6X6_UNORM),
+    (151, DxgiFormat::ASTC_6X6_UNORM_SRGB),
+    (153, DxgiFormat::ASTC_8X5_TYPELESS),
+    (154, DxgiFormat::ASTC_8X5_UNORM),
+    (155, DxgiFormat::ASTC_8X5_UNORM_SRGB),
+    (157, DxgiFormat::ASTC_8X6_TYPELESS),
+    (158, DxgiFormat::ASTC_8X6_UNORM),
+    (159, DxgiFormat::ASTC_8X6_UNORM_SRGB),
+    (161, DxgiFormat::ASTC_8X8_TYPELESS),
+    (162, DxgiFormat::ASTC_8X8_UNORM),
+    (163, DxgiFormat::ASTC_8X8_UNORM_SRGB),
+    (165, DxgiFormat::ASTC_10X5_TYPELESS),
+    (166, DxgiFormat::ASTC_10X5_UNORM),
+    (167, DxgiFormat::ASTC_10X5_UNORM_SRGB),
+    (169, DxgiFormat::ASTC_10X6_TYPELESS),
+    (170, DxgiFormat::ASTC_10X6_UNORM),
+    (171, DxgiFormat::ASTC_10X6_UNORM_SRGB),
+    (173, DxgiFormat::ASTC_10X8_TYPELESS),
+    (174, DxgiFormat::ASTC_10X8_UNORM),
+    (175, DxgiFormat::ASTC_10X8_UNORM_SRGB),
+    (177, DxgiFormat::ASTC_10X10_TYPELESS),
+    (178, DxgiFormat::ASTC_10X10_UNORM),
+    (179, DxgiFormat::ASTC_10X10_UNORM_SRGB),
+    (181, DxgiFormat::ASTC_12X10_TYPELESS),
+    (182, DxgiFormat::ASTC_12X10_UNORM),
+    (183, DxgiFormat::ASTC_12X10_UNORM_SRGB),
+    (185, DxgiFormat::ASTC_12X12_TYPELESS),
+    (186, DxgiFormat::ASTC_12X12_UNORM),
+    (187, DxgiFormat::ASTC_12X12_UNORM_SRGB),
+    (191, DxgiFormat::A4B4G4R4_UNORM),
+];
+
+pub fn dxgi_by_code(code: u32) -> Option<DxgiFormat> {
+    DXGI_CONSTS.iter().find(|(c, _)| *c == code).map(|(_, d)| *d).or_else(|| DxgiFormat::try_from(code).ok())
+}
+
 pub fn valid_dxgi_codes() -> Vec<u32> {
-    (0..256).filter(|c| DxgiFormat::try_from(*c).is_ok()).collect()
+    (0..256).filter(|c| dxgi_by_code(*c).is_some()).collect()
 }
 
 /// a random well-formed header with a plausible (small) geometry
@@ -788,7 +974,7 @@ pub fn random_header(rng: &mut Rng, dxgi: &[u32]) -> Header {
             height: h,
             depth: if vol { Some(depth.unwrap_or(3)) } else { depth.filter(|_| rng.chance(1, 8)) },
             mipmap_count,
-            dxgi_format: DxgiFormat::try_from(*rng.pick(dxgi)).unwrap(),
+            dxgi_format: dxgi_by_code(*rng.pick(dxgi)).unwrap(),
             resource_dimension: if vol {
                 ResourceDimension::Texture3D
             } else if rng.chance(1, 8) {
@@ -1263,6 +1449,15 @@ pub fn gen(seed: u64, thorough: bool) -> Vec<String> {
             out.push(format!("X 9:12:10:-:3:{caps2}:M:{}:{}:{}:{}:{}:{}", r.0, r.1, r.2, r.3, r.4, r.5));
         }
         out.push(format!("X 9:12:10:4:3:2097152:M:{}:{}:{}:{}:{}:{}", r.0, r.1, r.2, r.3, r.4, r.5));
+        // every other bit count and the flag families of the mask table for the same masks (a table entry whose bit
+        // count disagrees with the byte size of the format it names changes the layout under to_dx10)
+        for bits in [8u32, 16, 24, 32] {
+            for flags in [r.0, 0x40, 0x41, 0x2, 0x20000, 0x20001, 0x200, 0x80000, 0x40000] {
+                if bits != r.1 || flags != r.0 {
+                    out.push(format!("X 9:12:10:-:3:0:M:{}:{}:{}:{}:{}:{}", flags, bits, r.2, r.3, r.4, r.5));
+                }
+            }
+        }
         for j in 0..6 {
             let mut v = [r.0, r.1, r.2, r.3, r.4, r.5];
             if j == 1 {
